@@ -232,9 +232,16 @@ pub fn check_mi(c: &MiCase, st: &mut Stats) -> Result<(), String> {
     if wire.attrs.len() != p.model.attrs.len() {
         return Err("encoder output has a different number of TLVs".into());
     }
+    // the fault walk addresses bytes through the layout of the library's own output (equal to the reference layout
+    // on a correct encoder; a different layout is C02's finding, not a reason for this check to lose its footing)
+    let own_tlv: Vec<Tlv> = wire
+        .attrs
+        .iter()
+        .map(|a| Tlv { typ: a.typ, hdr_off: a.hdr_off, val_off: a.hdr_off + 4, val_len: a.value.len(), pad_len: a.pad_len })
+        .collect();
     let enc = Encoded {
         bytes: bytes.clone(),
-        tlv: reference.tlv.clone(),
+        tlv: own_tlv,
         noise_bits: 0,
         noise_set: 0,
     };
